@@ -14,8 +14,8 @@ import (
 // Fault enumeration: every single fault at every position of a valid vector.
 
 var c09Decl = &GenCfg{Depth: 3, Fanout: 2, MaxOpts: 3, MaxGroups: 2, NestGroups: 1, Kinds: []Kind{KBool, KString, KInt, KStringSlice, KUint8, KMapSI, KFloat64},
-	Pos: true, PosPct: 30, PosReq: true, Ns: true, Req: 12, Choices: true, OptArg: true, Aliases: true, SubOpt: 35, CmdPct: 92, Defaults: true, ByTagPct: 15,
-	ParserOpts: []flags.Options{flags.PassDoubleDash}}
+	Pos: true, PosPct: 40, PosReq: true, Ns: true, Req: 12, Choices: true, OptArg: true, Aliases: true, SubOpt: 35, CmdPct: 92, Defaults: true, ByTagPct: 15,
+	ParserOpts: []flags.Options{flags.PassDoubleDash, flags.IgnoreUnknown}}
 
 var c09Argv = &ArgvCfg{MaxItems: 2, WOpt: 60, WCluster: 10, WCmd: 5, WPlain: 8, WTerm: 1, WUnknown: 0, WJunk: 0, WRepeat: 12, BadVal: 0, Quote: 3}
 
@@ -103,6 +103,12 @@ func c09Faults(d *Decl, args []string, ref *RefResult) []fault {
 			fs = append(fs, fault{"option occurrence removed", append(append([]string{}, args[:i]...), args[end:]...)})
 		case TcPositional:
 			fs = append(fs, fault{"positional removed", append(append([]string{}, args[:i]...), args[i+1:]...)})
+			// unconvertible positional value, also behind a terminator
+			bad := append([]string{}, args...)
+			bad[i] = "x!bad"
+			fs = append(fs, fault{"unconvertible positional value", bad})
+			fs = append(fs, fault{"unconvertible positional value after terminator", insertAt(bad, i, "--")})
+			fs = append(fs, fault{"unknown option in a positional slot", func() []string { v := append([]string{}, args...); v[i] = "--no-such-option"; return v }()})
 		}
 	}
 	return fs
@@ -226,6 +232,6 @@ func c09Oracle(c *C09Case) string {
 }
 
 func TestC09(t *testing.T) {
-	S("C09").Rule = "command trees with executable (programmatic) and non-executable (tag) commands at every level, with/without CommandHandler, Execute returning nil or a sentinel error x base argv; for every base R accepts, EVERY position x fault kind {unknown option long/short, --help, -h, flag with argument, unconvertible value, out-of-range value, invalid choice, missing option argument, option-looking argument} plus per-token faults {command word replaced by an unknown word, command word removed, option occurrence removed, positional removed}, plus completion mode; oracle: R decides whether the variant is rejected; rejected => Execute and CommandHandler logs empty; accepted => exactly one invocation of the innermost executable command with the returned remaining args and its error returned unchanged. evaluations = bases + fault variants. non-trivial: a fault variant of an executing base that is rejected; distinct by (declaration signature, fault kind, faulted argv)"
+	S("C09").Rule = "command trees with executable (programmatic) and non-executable (tag) commands at every level, with/without CommandHandler, Execute returning nil or a sentinel error x base argv; for every base R accepts, EVERY position x fault kind {unknown option long/short, --help, -h, flag with argument, unconvertible value, out-of-range value, invalid choice, missing option argument, option-looking argument} plus per-token faults {command word replaced by an unknown word, command word removed, option occurrence removed, positional removed, positional replaced by an unconvertible value (also behind '--') or by an unknown option}, plus completion mode; oracle: R decides whether the variant is rejected; rejected => Execute and CommandHandler logs empty; accepted => exactly one invocation of the innermost executable command with the returned remaining args and its error returned unchanged. evaluations = bases + fault variants. non-trivial: a fault variant of an executing base that is rejected; distinct by (declaration signature, fault kind, faulted argv)"
 	runProp(t, "C09", genC09, c09Oracle)
 }
